@@ -158,14 +158,15 @@ theorem C06_nak_len (conf : Hdr) (fse m maxPkt : Nat) (p : Pdu)
 present, the deferred procedure queues nothing, verifies the checksum and moves to transfer
 completion (the queue is exactly as before). -/
 theorem C06_nothing_missing (env : Env) (d : DestSt) (rc : RemoteCfg) (fse : Nat)
-    (ha : d.p.deferredActive = true) (hrc : d.p.remoteCfg = some rc) (hf : d.p.fileSizeEof = some fse)
+    (ha : d.p.deferredActive = true) (hnc : d.p.canceled = false)
+    (hrc : d.p.remoteCfg = some rc) (hf : d.p.fileSizeEof = some fse)
     (htrk : d.p.trk = []) (hmd : d.p.metadataMissing = false) (hnull : d.p.cksType = 15)
     (hb : d.state = .busy) :
     deferredLostSegmentHandling env d =
       .ok () { d with step := .TRANSFER_COMPLETION,
                       p := { d.p with deferredActive := false,
                                       fin := { d.p.fin with deliv := dcComplete, cond := ccNoError } } } := by
-  msimp [deferredLostSegmentHandling, getP, ha, hrc, hf, htrk, hmd, checksumVerify, hnull, markComplete, modP, hb]
+  msimp [deferredLostSegmentHandling, getP, ha, hnc, hrc, hf, htrk, hmd, checksumVerify, hnull, markComplete, modP, hb]
 
 /-- **Immediate NAK.**  A File Data PDU beyond the end of the last in-order segment makes the gap
 `[last_end, offset)` lost; in immediate mode exactly that gap is requested at once, in a NAK whose
